@@ -261,6 +261,9 @@ pub fn parse_complete<F: LemireFloat, const FORMAT: u128>(
             || NumberFormat::<FORMAT>::REQUIRED_MANTISSA_DIGITS
         {
             return Err(Error::Empty(byte.cursor()));
+        } else if NumberFormat::<FORMAT>::REQUIRED_EXPONENT_NOTATION {
+            // NOTE: the empty number has no exponent either.
+            return Err(Error::MissingExponent(byte.cursor()));
         } else {
             // NOTE: the sign still applies: `-` is `-0.0`, like `-.` and `-0`.
             return Ok(if is_negative { -F::ZERO } else { F::ZERO });
@@ -308,6 +311,9 @@ pub fn fast_path_complete<F: LemireFloat, const FORMAT: u128>(
             || NumberFormat::<FORMAT>::REQUIRED_MANTISSA_DIGITS
         {
             return Err(Error::Empty(byte.cursor()));
+        } else if NumberFormat::<FORMAT>::REQUIRED_EXPONENT_NOTATION {
+            // NOTE: the empty number has no exponent either.
+            return Err(Error::MissingExponent(byte.cursor()));
         } else {
             // NOTE: the sign still applies: `-` is `-0.0`, like `-.` and `-0`.
             return Ok(if is_negative { -F::ZERO } else { F::ZERO });
@@ -337,6 +343,9 @@ pub fn parse_partial<F: LemireFloat, const FORMAT: u128>(
             || NumberFormat::<FORMAT>::REQUIRED_MANTISSA_DIGITS
         {
             return Err(Error::Empty(byte.cursor()));
+        } else if NumberFormat::<FORMAT>::REQUIRED_EXPONENT_NOTATION {
+            // NOTE: the empty number has no exponent either.
+            return Err(Error::MissingExponent(byte.cursor()));
         } else {
             // NOTE: the sign still applies: `-` is `-0.0`, like `-.` and `-0`.
             return Ok((if is_negative { -F::ZERO } else { F::ZERO }, byte.cursor()));
@@ -391,6 +400,9 @@ pub fn fast_path_partial<F: LemireFloat, const FORMAT: u128>(
             || NumberFormat::<FORMAT>::REQUIRED_MANTISSA_DIGITS
         {
             return Err(Error::Empty(byte.cursor()));
+        } else if NumberFormat::<FORMAT>::REQUIRED_EXPONENT_NOTATION {
+            // NOTE: the empty number has no exponent either.
+            return Err(Error::MissingExponent(byte.cursor()));
         } else {
             // NOTE: the sign still applies: `-` is `-0.0`, like `-.` and `-0`.
             return Ok((if is_negative { -F::ZERO } else { F::ZERO }, byte.cursor()));
